@@ -2,6 +2,7 @@ import AslModel.Codec
 import AslModel.Sha1
 import AslProofs.Codec
 import AslProofs.Sha1
+import AslProofs.Query3
 /-!
 # C15 — Base64, hex, percent-encoding and SHA-1 match their standards on all inputs
 
@@ -238,6 +239,37 @@ theorem url_encode_safe (s : List UInt8) (component : Bool) :
         · exact Or.inl ha
         · exact Or.inr (Or.inl (h (by simpa using ha)))
     · exact ih c hc
+
+
+/-! ## query strings -/
+section Query
+open AslModel.Query
+
+/-- a `Dic<>` value: entries in strictly increasing key order (`String::operator<`, i.e. `strcmp`) -/
+def IsDic (d : Dict) : Prop := d.Pairwise fun a b => bytesLt a.1 b.1 = true
+
+/-- every `Dic<>` built by assignments `d[k] = v` (in any order, with repeated keys) is such a value -/
+theorem dic_values_are_sorted (l : Dict) : IsDic (ofPairs l) := AslProofs.Query.ofPairs_sorted_any l
+
+/-- **query_roundtrip.**  `Url::parseQuery(Url::params(d)) = d` for every dictionary with non-empty keys:
+    any number of entries, any bytes in keys and values (`&`, `=`, `+`, `%`, spaces, non-ASCII …). -/
+theorem query_roundtrip (d : Dict) (hd : IsDic d) (hk : ∀ kv ∈ d, kv.1 ≠ []) : parseQuery (params d) = d :=
+  AslProofs.Query.query_roundtrip d hd hk
+
+/-- the same, for dictionaries as programs build them -/
+theorem query_roundtrip_built (l : Dict) (hk : ∀ kv ∈ l, kv.1 ≠ []) :
+    parseQuery (params (ofPairs l)) = ofPairs l := by
+  refine query_roundtrip _ (dic_values_are_sorted l) ?_
+  intro kv h
+  obtain ⟨y, hy, he⟩ := AslProofs.Query.ofPairs_keys l kv h
+  rw [← he]; exact hk y hy
+
+/-- the hypothesis is needed: an entry with an empty key is dropped (`j > 0` in `String::split(sep1, sep2)`) -/
+theorem query_empty_key_lost : parseQuery (params [([], [120])]) = [] := by decide
+
+example : parseQuery (params [([38, 61], [43, 32, 37]), ([97], [])]) = [([38, 61], [43, 32, 37]), ([97], [])] := by decide
+
+end Query
 
 /-! ## SHA-1 -/
 
